@@ -156,7 +156,19 @@ def c10_streams(tier, seed):
             # histories of the mutating API on accepted dictionaries (builders_total_any_history): mappings of wrong
             # length on one side, user lexicons with malformed rows, write/read
             (["tok", "c06", str(seed + 5), "400" if q else "12000"], c),
-            (["tok", "c08", str(seed + 5), "300" if q else "8000"], c)]
+            (["tok", "c08", str(seed + 5), "300" if q else "8000"], c),
+            # width limits of the id types: bigram files with 65534..65537 rows (raw and dual), matrix.def headers
+            # around 65535/65536 (finding F26; theorems C10guard.*)
+            (["limits", str(seed), "6" if q else "99"], limits_classify)]
+
+
+def limits_classify(line, impl, mobs, extra):
+    t = line.split()
+    info = {"tags": ["limits=" + t[2], "impl=" + impl.split()[0]], "nontrivial": True}
+    if "panic" in impl:
+        info["prop_fail"] = "builder-or-accepted-dictionary-panics-at-id-width-limit"
+        info["why"] = "a builder, or a dictionary it accepted, panicked at the width limit of the connection-id type: " + " ".join(t[2:6])
+    return info
 
 
 def has_dops(line, impl, mobs):
@@ -818,7 +830,7 @@ PROPS = {
         "assumptions": [],
     },
     "C10": {
-        "modules": ["Vibrato.Props.C10", "Vibrato.Props.C10big"],
+        "modules": ["Vibrato.Props.C10", "Vibrato.Props.C10big", "Vibrato.Props.C10guard"],
         "theorems": ["Vibrato.builders_total", "Vibrato.parsers_total", "Vibrato.LexCsv.parseCsv_ne_panic",
                      "Vibrato.resetUser_total", "Vibrato.mapIds_total", "Vibrato.builders_establish_wf",
                      "Vibrato.builders_preserve_wf", "Vibrato.builders_total_any_history", "Vibrato.accepted_ids_in_range",
@@ -829,7 +841,8 @@ PROPS = {
                      "Vibrato.bigram_builders_total", "Vibrato.bigram_dict_builders_total", "Vibrato.bigram_builders_establish_wf",
                      "Vibrato.bigram_accepted_is_safe", "Vibrato.bigram_accepted_is_safe_i32", "Vibrato.bigram_total_any_history",
                      "Vibrato.bigram_cost_total", "Vibrato.bigram_table_is_cost", "Vibrato.bigram_connector_dims",
-                     "Vibrato.pinned_builder_panics", "Vibrato.dual_u16_conn_id_panics", "Vibrato.raw_cost_panics_at_u16_max"],
+                     "Vibrato.pinned_builder_panics", "Vibrato.dual_u16_conn_id_panics", "Vibrato.raw_cost_panics_at_u16_max",
+                     "Vibrato.bigram_builders_total_guarded", "Vibrato.bigram_dict_builders_total_guarded", "Vibrato.guarded_ok_is_unguarded"],
         "streams": c10_streams,
         "rule": "valid definition files from the structured generator + one corruption per case (16 kinds: empty file, byte "
                 "delete/insert/replace, cut, drop/duplicate field, swapped lines, out-of-range numbers, CRLF, BOM, missing final newline, "
